@@ -7,6 +7,8 @@ from ..probe import call
 from ..ref import cpr
 
 LEVEL = "exploration"
+TECHNIQUE = 'runtime monitoring: NL table from closed-form transition latitudes as oracle + trace monitors (evenness, monotonicity) over recorded calls'
+LEVEL_TEXT = 'Exploration with an exhaustive 0.0005-degree grid (0.0001 in thorough) and +-1..64 ulps / +-1e-12..1e-3 around all 58 transitions; the remaining reals between grid points are not observed.'
 LEVEL_RULE = (
     "py_common.cprNL called on the 0.0005-degree grid over [-90,90], on +-1..64 ulps and +-{1e-12..1e-3} around each of "
     "the 58 transition latitudes, 0, +-87, +-90 and on random latitudes; oracle = NL table from the closed-form "
